@@ -35,6 +35,9 @@ class Ob:
         self.stubs = attrs.get("stubs", "")
         self.extra = attrs.get("kani", "")  # extra cargo-kani arguments
         self.nocover = attrs.get("nocover") == "1"
+        # replay=none: the counterexample is a choice of order / kernel behaviour under stubs that a native unit test cannot
+        # reproduce (no real threads in the playback); a failing check is then reported from the solver's verdict alone
+        self.noreplay = attrs.get("replay") == "none"
         self.allow = attrs.get("allow")  # failures whose description contains this text are expected panics
 
     @property
@@ -170,7 +173,7 @@ def run_harness(ob, logdir):
     property: measured 4.4 GB / 160 s without against 43.8 GB / OOM with, for the same passing harness); (2) only if a
     check failed, run again with concrete playback to obtain the counterexample as a unit test."""
     r = _run_harness(ob, logdir, playback=False)
-    if r["class"] == "fail":
+    if r["class"] == "fail" and not ob.noreplay:
         r2 = _run_harness(ob, logdir, playback=True)
         if r2["class"] == "fail":
             r2["wall_s"] += r["wall_s"]
@@ -294,6 +297,18 @@ def replay_from_file(path):
     if not obs:
         log("replay: harness %s not found" % data["harness"])
         return 2
+    if obs[0].noreplay:
+        # no native replay for this harness: "replay" = decide the harness again on the current tree
+        logdir = os.path.join(SCRATCH, "logs", "replay")
+        os.makedirs(logdir, exist_ok=True)
+        prepare_targets([obs[0].crate])
+        ok, dt, out = build_crate(obs[0].crate, logdir)
+        if not ok:
+            log("replay: harness crate does not build")
+            return 2
+        r = _run_harness(obs[0], logdir, playback=False)
+        log("replay (solver re-run of %s): %s %s" % (obs[0].harness, r["class"], r["why"][:300]))
+        return 1 if r["class"] == "fail" else (0 if r["class"] == "pass" else 2)
     tests = [{"src": c["unit_test"], "fn": c["test_fn"], "kind": c["kind"], "description": c["check"]}
              for c in data["counterexamples"]]
     reps = replay(obs[0], tests, "manual")
@@ -358,7 +373,7 @@ def check_property(prop, tier, seed, only=None, jobs=None, assumptions=None, out
         ob = r["ob"]
         is_known = ob.known and ob.known in known
         if r["class"] == "fail":
-            tests = playback_tests(r["out"])
+            tests = [] if ob.noreplay else playback_tests(r["out"])
             reps = replay(ob, tests, prop + "_" + ob.fn) if tests else []
             replays_done += len(reps)
             reproduced = [x for x in reps if x[1]]
@@ -368,6 +383,8 @@ def check_property(prop, tier, seed, only=None, jobs=None, assumptions=None, out
             r["reproduced"] = len(reproduced)
             if is_known:
                 known_hits.append((ob, known[ob.known], r))
+            elif ob.noreplay:
+                violations.append((ob, r, path, "solver verdict only: this harness has no native replay (order-level counterexample under stubs)"))
             elif reproduced or mem_only:
                 violations.append((ob, r, path, "reproduced natively" if reproduced else
                                    "memory-safety class (not observable natively); solver trace only"))
